@@ -561,9 +561,19 @@ func c04MultiMember(rep *vrep.Report, w *vWorld, thorough bool) {
 		}
 	}
 	for i, gc := range gcs {
+		ownBefore := metaStateOwn(gc.MetadataStore())
 		ngc := devs[i].reopen(gc)
 		if s := metaState(ngc.MetadataStore()); s != want {
 			viol("reopen-changes-state", fmt.Sprintf("device %d: %s", i, firstDiff(s, want)))
+		}
+		// what the device knows about its own announcements is a function of the log too: same after a reopen (one
+		// pass over the whole log) and after indexing the log once more
+		if s := metaStateOwn(ngc.MetadataStore()); s != ownBefore {
+			viol("reopen-changes-state", fmt.Sprintf("device %d, announcements already sent: before the reopen %s, after it %s", i, ownBefore, s))
+		}
+		vmust(ngc.MetadataStore().Load(w.ctx, -1))
+		if s := metaStateOwn(ngc.MetadataStore()); s != ownBefore {
+			viol("reindex-changes-state", fmt.Sprintf("device %d, announcements already sent: live %s, after reopen and a second pass %s", i, ownBefore, s))
 		}
 		gcs[i] = ngc
 	}
